@@ -175,6 +175,16 @@ def run_cell(cell, seed):
     for kind in kinds:
         yl, yh = make_pyramid(cell, kind, seed)
         out.extend(judge(cell, kind, None, mod, yl, yh))
+    # history: in-place reload of the filter buffers with other taps of the same length
+    other = c01.same_length_other(cell['wave'])
+    if other is not None and rnd.random() < 0.34:
+        cell2 = dict(cell, wave=other, reloaded_from=cell['wave'])
+        mod2 = build(cell)
+        pyrs = {k: make_pyramid(cell, k, seed + 41) for k in ('impulse', 'randn')}
+        if all(util.call_lib(mod2, p)[0] for p in pyrs.values()):
+            mod2.load_state_dict(build(cell2).state_dict())
+            for k, (yl, yh) in pyrs.items():
+                out.extend(judge(cell2, 'reload-' + k, None, mod2, yl, yh))
     # None subsets
     J = cell['J']
     masks = set()
